@@ -81,7 +81,7 @@ TESTED_NOT_PROVED = [
     "graph_to_rsmi / its_to_rsmi / gml_to_smart: modelled up to the two RWMol handed to RDKit (observed on the real call by a spy on "
     "graph_to_smi / GraphToMol.graph_to_mol); what RDKit writes from them is not modelled",
 ]
-LEVEL_TEXT = ("Machine-checked proof (Coq, 41 theorems, closed under the global context) over an executable model of the GML writer/reader at "
+LEVEL_TEXT = ("Machine-checked proof (Coq, 42 theorems, closed under the global context) over an executable model of the GML writer/reader at "
               "record level, of its_to_gml / gml_to_its / smart_to_gml / get_rc / its_decompose / ITSGraph at graph level, of h_to_explicit / "
               "h_to_implicit, and of the attribute copying of MolToGraph / GraphToMol: label round trip for every element symbol and every "
               "charge; ITS -> GML -> ITS restores atoms, both-side charges and (before, after) orders for every reaction-centre-shaped ITS, "
@@ -426,21 +426,22 @@ def enc_mol(rec):
 _RXG = {}
 
 
-def rxn_graphs(rsmi):
+def rxn_graphs(rsmi, sanitize=True):
     """(r, p, eo) of rsmi_to_graph + the edge iteration order of ITSGraph(r, p); None if unparsable."""
-    if rsmi not in _RXG:
+    key = rsmi if sanitize else (rsmi, False)
+    if key not in _RXG:
         from synkit.IO.chem_converter import rsmi_to_graph
         from synkit.Graph.ITS.its_construction import ITSConstruction
         try:
-            r, p = rsmi_to_graph(rsmi)
+            r, p = rsmi_to_graph(rsmi, sanitize=sanitize)
             if r is None or p is None:
-                _RXG[rsmi] = None
+                _RXG[key] = None
             else:
                 its = ITSConstruction().ITSGraph(r, p)
-                _RXG[rsmi] = (from_nx(r), from_nx(p), [[u, v] for u, v in its.edges()])
+                _RXG[key] = (from_nx(r), from_nx(p), [[u, v] for u, v in its.edges()])
         except Exception:
-            _RXG[rsmi] = None
-    return _RXG[rsmi]
+            _RXG[key] = None
+    return _RXG[key]
 
 
 def _py_h_dom(G):
@@ -556,6 +557,10 @@ def impl(case):
             out.append([[[[[[[gr_ord_obs(c), gr_ord_obs(r), gr_ord_obs(p), rec_obs(text_to_rec(text)), parsed_obs(text)], _py_its_ok(c)],
                           True, all(d.get("typesGH") is not None for _, d in I.nodes(data=True))],
                          all((d.get("hcount", 0) or 0) <= 0 for _, d in c.nodes(data=True))], text], _py_rec_okb(text)], spy.mid()])
+        if case.get("rule_name") is not None:
+            core, reindex, eh = case["cfgs"][0]
+            t = its_to_gml(to_nx(case["its"]), core, case["rule_name"], reindex, eh)      # positional, as documented
+            return [out, [t, [parsed_obs(t)]]]
         return out
     if k == "hist":
         return run_hist(case["script"])
@@ -578,7 +583,8 @@ def impl(case):
     if k == "smart":
         from synkit.IO.chem_converter import smart_to_gml
         from synkit.Graph.ITS.its_construction import ITSConstruction
-        x = rxn_graphs(case["rsmi"])
+        san = case.get("sanitize", True)
+        x = rxn_graphs(case["rsmi"], san)
         if x is None:
             return ["NOGRAPH"]
         its = ITSConstruction().ITSGraph(to_nx(x[0]), to_nx(x[1]))
@@ -586,7 +592,10 @@ def impl(case):
         dom = [_py_mol_ok(x[0]), _py_mol_ok(x[1]), _py_balanced(x[0], x[1]), _py_eo_covers(x[0], x[1], x[2])]
         sf = all(a.get("standard_order") is None for g in x[:2] for _, _, a in g["edges"])
         for core, reindex, eh in case["cfgs"]:
-            text = smart_to_gml(case["rsmi"], core=core, reindex=reindex, explicit_hydrogen=eh)
+            if san:
+                text = smart_to_gml(case["rsmi"], core=core, reindex=reindex, explicit_hydrogen=eh)
+            else:       # positional: smart, core, sanitize, rule_name, reindex, explicit_hydrogen
+                text = smart_to_gml(case["rsmi"], core, False, "rule", reindex, eh)
             out.append([[[gr_obs(its), rec_obs(text_to_rec(text)), parsed_obs(text)]] + dom, sf])
         return out
     raise AssertionError(k)
@@ -623,8 +632,11 @@ def coq_case(case):
             if any(c[0] and c[2] for c in case["cfgs"]) and _hh_without_std(case["its"]):
                 return None      # see _hh_without_std: outside the model's domain (oracle only)
             g = enc_gr(case["its"])
-            return "(let g := %s in %s)" % (g, clistL(["run_its7 g %s %s %s" % (cbool(a), cbool(b), cbool(c))
-                                                        for a, b, c in case["cfgs"]]))
+            body = clistL(["run_its7 g %s %s %s" % (cbool(a), cbool(b), cbool(c)) for a, b, c in case["cfgs"]])
+            if case.get("rule_name") is not None:
+                a, b, c = case["cfgs"][0]
+                body = "L [%s; run_its_named g %s %s %s %s]" % (body, cbool(a), cbool(b), cbool(c), enc_str(case["rule_name"]))
+            return "(let g := %s in %s)" % (g, body)
         if k == "hist":
             return coq_hist(case["script"])
         if k == "text":
@@ -642,7 +654,7 @@ def coq_case(case):
         if k == "imph":
             return "run_imph %s %s" % (enc_gr(case["g"]), clist([cZ(x) for x in case["preserve"]]))
         if k == "smart":
-            x = rxn_graphs(case["rsmi"])
+            x = rxn_graphs(case["rsmi"], case.get("sanitize", True))
             if x is None:
                 return None
             eo = clist(["(%s, %s)" % (cN(u), cN(v)) for u, v in x[2]])
@@ -1509,6 +1521,8 @@ def _oracle_its_graph(I, cfgs, tag):
 def _oracle_smart(case):
     from synkit.IO.chem_converter import smart_to_gml, its_to_gml, gml_to_its, rsmi_to_its
     from synkit.Graph.ITS.its_decompose import get_rc
+    if not case.get("sanitize", True):
+        return []       # sanitize=False reads the molecule as written (no aromaticity perception): correspondence only
     r = case["rsmi"]
     x = rxn_graphs(r)
     if x is None:
@@ -1614,6 +1628,8 @@ def nontrivial(case, obs):
         return any(es for _, es in case["rec"])
     if k == "transform":
         return bool(case["L"]["edges"] or case["R"]["edges"])
+    if k == "its" and case.get("rule_name") is not None and isinstance(obs, list) and len(obs) == 2:
+        obs = obs[0]
     if k in ("its", "smart"):
         try:
             return any(len(_rec_of(k, o)) == 3 and any(sec[1] for sec in _rec_of(k, o)) for o in obs)
@@ -1663,6 +1679,8 @@ def distribution(cases, obss):
                         nb[v] += 1
                 if any(x == 0 for x in nb.values()):
                     d["bare_H_graphs"] += 1
+        if k == "its" and c.get("rule_name") is not None and isinstance(o, list) and len(o) == 2:
+            o = o[0]
         if k in ("its", "smart") and isinstance(o, list):
             try:
                 for oo in o:
@@ -1838,6 +1856,13 @@ HIST_POOL = ["[NH4+]", "C[N+](C)(C)CC([O-])=O", "c1cc[nH]c1", "[O-]c1ccccc1", "[
              "CC(C)(C)c1ccc(cc1)S(N)(=O)=O", "[NH3+]CC([O-])=O", "OC%10CCCCC%10", "c%10ccc(cc%10)-c%11ccc([N+](=O)[O-])cc%11",
              "[CH3:10][CH:20]=C", "[H][H]", "[H+]", "[CH2:3]=[CH:1][CH2:2][NH3+:10]", "[Zr+4]", "[P-3]", "[CH3:1][O:2][H:3]", "[H:4][CH2:1][O:2][H:3]", "[H:3][O:2][CH2:1][CH2:5][H:3]", "[O-]S(=O)(=O)[O-]",
              "Cn1cc[n+](C)c1", "C#N", "[C-]#[O+]"]
+
+
+NOSANITIZE_RXNS = [
+    "[CH:1]1=[CH:2][CH:3]=[CH:4][CH:5]=[C:6]1[Br:7].[OH-:8]>>[CH:1]1=[CH:2][CH:3]=[CH:4][CH:5]=[C:6]1[OH:8].[Br-:7]",
+    "[CH3:1][N:2](=[O:3])=[O:4].[CH3:5][Mg:6][Br:7]>>[CH3:1][N:2](=[O:3])([CH3:5])[O:4][Mg:6][Br:7]",
+    "[CH:1]1=[CH:2][N:3]=[CH:4][CH:5]=[C:6]1[CH2:7][H:10].[Cl:8][Cl:9]>>[CH:1]1=[CH:2][N:3]=[CH:4][CH:5]=[C:6]1[CH2:7][Cl:8].[H:10][Cl:9]",
+]
 
 
 def _hist_scripts(smi, other):
@@ -2118,7 +2143,17 @@ def gen_cases(tier, rng):
         els = ["C", "N", "O", "H", "H", "Cl"] if rng.random() < 0.6 else [rng.choice(syms) for _ in range(4)] + ["*"]
         g = _rand_its(rng, n, els, consistent=rng.random() < 0.85)
         cfgs = [list(c) for c in ALL4] if rng.random() < 0.5 else [[rng.random() < 0.5, rng.random() < 0.5, True], [True, True, False]]
-        cases.append(dict(kind="its", its=g, cfgs=cfgs))
+        case = dict(kind="its", its=g, cfgs=cfgs)
+        z = rng.random()
+        if z < 0.15:        # another rule name (positional call): the name line must not disturb the reader
+            case["rule_name"] = rng.choice(["R-17", "left over", "x]", "my context rule", "node 7", "", "rule [", "a b\tc"])
+        elif z < 0.30:      # ids with 3-5 digits
+            mul, off = rng.choice([(97, 1000), (1, 99), (1009, 7), (10, 0)])
+            ren = {i: i * mul + off for i, _ in g["nodes"]}
+            case["its"] = {"nodes": [[ren[i], dict(a, atom_map=ren[i])] for i, a in g["nodes"]],
+                           "edges": [[ren[u], ren[v], a] for u, v, a in g["edges"]]}
+            case["name"] = "its-bigids/%d" % k
+        cases.append(case)
     corpus = _corpus()
     idx = list(range(len(corpus)))
     if quick:
@@ -2127,6 +2162,13 @@ def gen_cases(tier, rng):
         idx = sorted(rng.sample(usp, 28) + rng.sample(eco, 22))
     from synkit.IO.chem_converter import rsmi_to_its
     from synkit.Graph.ITS.its_decompose import get_rc
+    # reactions written in a form sanitisation changes (Kekule ring -> aromatic bonds and flags, pentavalent nitro -> charge
+    # separated): with sanitize=False (passed positionally) the rule is written from the molecule as given
+    for j, r in enumerate(NOSANITIZE_RXNS):
+        for san in (True, False):
+            if rxn_graphs(r, san) is not None:
+                cases.append(dict(kind="smart", rsmi=r, sanitize=san, cfgs=[[True, False, False], [False, False, False], [True, True, True]],
+                                  name="smart-%s/%d" % ("sanitized" if san else "nosanitize-kekule", j)))
     for i in idx:
         src, j, r = corpus[i]
         if rxn_graphs(r) is None:
@@ -2135,6 +2177,9 @@ def gen_cases(tier, rng):
                           name="smart/%s/%d" % (src, j)))
         if not quick or len([c for c in cases if c["kind"] == "rxn"]) < 27:
             cases.append(dict(kind="rxn", rsmi=r, name="rxn/%s/%d" % (src, j)))
+        if i % 4 == 1 and rxn_graphs(r, False) is not None:
+            cases.append(dict(kind="smart", rsmi=r, sanitize=False, cfgs=[[True, False, False], [False, True, False]],
+                              name="smart-nosanitize/%s/%d" % (src, j)))
         r2 = _renumber(r, rng)
         if rxn_graphs(r2) is not None:
             cases.append(dict(kind="smart", rsmi=r2, of=r, cfgs=[[True, True, False], [True, False, rng.random() < 0.3]],
